@@ -81,7 +81,7 @@ func matchKeys(c *Ctx, pats []string) []string {
 	var keys []string
 	for _, k := range c.contracts.Order {
 		fc := c.contracts.Funcs[k]
-		if fc.Assumed && c.funcByKey[k] == nil {
+		if fc.Assumed || c.funcByKey[k] == nil {
 			continue
 		}
 		if fc.Trusted {
